@@ -85,6 +85,7 @@ UNIT = dict(
     'msq.push.appends': dict(deciding=True, text='push assigns only old_last->next and the tail: the new node holds the argument, its next is null, it is linked behind the last node and the tail points to it (a lagging tail is helped first)'),
     'msq.push.frame': dict(deciding=True, text='push leaves the head, every other node and every other T untouched; nothing deleted or destroyed'),
     'msq.push.owns': dict(deciding=True, text='C07: exactly one T is constructed (in the new node) from the argument'),
+    'msq.sync.acquire': dict(deciding=True, text='sync precondition [INT runs]: the guard acquisitions of _tail / _head, the acquisition of the head\'s successor and push\'s load of the tail node\'s successor are acquire-or-stronger (they are how a node linked by another thread\'s release CAS is reached); the release side is part of msq.push.commit / msq.pop.commit'),
     'msq.push.commit': dict(deciding=True, text='[INT] link CAS: on next of the guard-protected tail node, expected null, desired the own node (holding the argument, next null); help CAS: expected the protected node, desired its next read after the guard (one step); final swing: expected the node linked behind, desired the own node; exactly one successful link'),
     'msq.pop.takes_first': dict(deciding=True, text='empty <=> head->next is null (nothing changes); otherwise the value of head->next is returned, the head advances by one and the old dummy is retired exactly once'),
     'msq.pop.helps_tail': dict(deciding=True, text='a tail still pointing to the dummy is helped forward by exactly one before the head moves; otherwise the tail is untouched'),
